@@ -349,6 +349,15 @@ def find_check_cache(context):
     except FileNotFoundError:
         return
 
+    # If one of the explicit inputs has disappeared (e.g. `options.bfg` or a
+    # submodule's `build.bfg` was removed or renamed), we definitely want to
+    # regenerate: either the build files change or the user gets an error.
+    # (A missing file would otherwise look infinitely old, and the build tool
+    # would re-run us forever because its prerequisite never appears.)
+    if not all(_path.exists(i, context.env.base_dirs)
+               for i in regen_files.inputs):
+        return
+
     # Check if any of the explicit inputs are newer than any of the explicit
     # outputs. If so, we definitely want to regenerate the build files.
     if ( max(_path.getmtime_ns(i, context.env.base_dirs, strict=False)
